@@ -161,8 +161,8 @@ def main():
     run.assumptions.append('fixed private keys / ellswift entropy / garbage contents, so wire bytes are reproducible; other key material is not enumerated')
     run.assumptions.append('exhaustive cut positions are explored for small sessions (payload <= 4 bytes, garbage <= 3 bytes); large payloads, 4095-byte garbage and the rekey run use uniform chunk sizes only')
     rule = (f'A: for each small session every environment schedule = (direction to deliver next) x (all available bytes | cut after c bytes for every c) with at most {stats.get("explore_cut_bound")} cuts, '
-            'pruned on canonical transport state; B: every message sequence up to length 2 (thorough 3) over {ping,verack,zzlongtype12,""} x payload {0,1,255,256} per mode x chunk {all,1,3} x first mover, plus 65536-byte payloads, '
-            'garbage {0,1,4095}^2, 230(460)-message rekey runs; C: scripted BIP324 peer with decoys {none,0,1,100,(0,0),(7,0,300)} before the version packet and before messages, garbage {0,1,4095}, over-long garbage; '
+            'pruned on canonical transport state; B: every message sequence up to length 2 (thorough 3) over {ping,verack,zzlongtype12,""} x payload {0,1,255,256} per mode x chunk {all,1,3} x first mover, plus 65536-byte payloads, payloads of 3999988/3999989/4000000 bytes with short-id and long-form (12-char, 6-char, sendaddrv2) message types, '
+            'garbage {0,1,4095}^2, 230(460)-message rekey runs; C: scripted BIP324 peer with decoys {none,0,1,100,(0,0),(7,0,300)} before the version packet and before messages, garbage {0,1,4095}, decoys of 4000001/4000002/4000013 contents bytes, over-long garbage; '
             'D: every single bit of both directions of a v2 session transcript x chunk {all,1,5}, every checksum/payload bit of a v1 session x chunk {all,1,7}. '
             'evaluations = executions/runs + transcripts recomputed by the Python reference; distinct = canonical states + sequences + tamper positions + peer cases')
     return run.finish(rule=rule, exhaustive=not incomplete)
